@@ -484,3 +484,8 @@ Section AllRows.
     rewrite (keep_rg_sat R cell fv conv good Hleaf _ _ _ _ Hg (Hv rg Hrg) Hr Hs Hb) in Hk. discriminate.
   Qed.
 End AllRows.
+
+(* the "~" operator of the row pass: rows whose (boolean) cell is falsy; a missing cell is not selected; the constant is ignored *)
+Lemma cond_cell_tilde x c :
+  cond_cell "~" x c = Ok (if is_none x then false else negb (truthy x)).
+Proof. unfold cond_cell. cbn [String.eqb Ascii.eqb Bool.eqb]. destruct (is_none x); reflexivity. Qed.
